@@ -1,6 +1,7 @@
 package main
 
 import (
+	"crypto/sha256"
 	"encoding/json"
 	"fmt"
 	"os"
@@ -134,7 +135,7 @@ func report(prop, tier string, all []*Obligation, functions []string, trusted, i
 		// keep the SMT query beside the replay file
 		if o.File != "" {
 			if b, err := os.ReadFile(o.File); err == nil {
-				dst := filepath.Join(rdir, mangle(o.Name)+".smt2")
+				dst := filepath.Join(rdir, replayBase(o.Name)+".smt2")
 				os.WriteFile(dst, b, 0o644)
 				rf.SMTFile = dst
 				rf.SMTSHA256 = fileSHA(dst)
@@ -147,7 +148,7 @@ func report(prop, tier string, all []*Obligation, functions []string, trusted, i
 		if tryReplay(o, &rf) {
 			suffix = ""
 		}
-		rp := filepath.Join(rdir, mangle(o.Name)+".json")
+		rp := filepath.Join(rdir, replayBase(o.Name)+".json")
 		b, _ := json.MarshalIndent(rf, "", " ")
 		os.WriteFile(rp, b, 0o644)
 		fmt.Printf("VIOLATION property=%s replay=%s obligation=%s status=%s%s\n", prop, rp, o.Name, o.Result.Status, suffix)
@@ -265,4 +266,14 @@ func extractModel(o *Obligation) map[string]string {
 		}
 	}
 	return m
+}
+
+// replayBase: file name of an obligation's replay (mangled name plus a short hash, since mangling is not injective)
+func replayBase(name string) string {
+	h := sha256.Sum256([]byte(name))
+	m := mangle(name)
+	if len(m) > 120 {
+		m = m[:120]
+	}
+	return fmt.Sprintf("%s_%x", m, h[:3])
 }
